@@ -276,3 +276,33 @@ class Analysis:
             self.report("C05.B1.recursive-compile-function-is-neutral", path, res.key() == State().key(),
                         "a recursive code generation function leaves %r open" % res, f.loc)
         return res
+
+
+def balanced_in_context(an, prog, g, neutral, _seen=None):
+    """A code generation function is balanced when it is neutral by itself, or when it is a private piece of other
+    generator methods (every call site is in a generator method, none outside, none through a closure) and each of
+    those is balanced in turn: a maintainer who moves the second half of a construct into a helper keeps the construct
+    balanced although the helper alone is not.  `neutral(state)` is the respect in which balance is asked.
+    Returns (ok, how)."""
+    s = an.summaries.get(g)
+    if s is None:
+        return False, "no summary"
+    if neutral(s):
+        return True, "neutral"
+    f = prog.fn(g)
+    if f.is_pub or an._recursive.get(g):
+        return False, "leaves %r" % s
+    seen = set(_seen or ()) | {g}
+    sites = prog.callers().get(g, [])
+    if not sites:
+        return False, "leaves %r" % s
+    owners = []
+    for c in sites:
+        cf = c.fn
+        if cf.kind == "closure" or not cf.path.startswith(GEN + "::") or cf.path in seen:
+            return False, "leaves %r and is called from %s" % (s, cf.path)
+        ok, how = balanced_in_context(an, prog, cf.path, neutral, seen)
+        if not ok:
+            return False, "leaves %r and its caller %s does not make up for it" % (s, cf.path.split("::")[-1])
+        owners.append(cf.path.split("::")[-1])
+    return True, "leaves %r, made up for by its only caller(s) %s" % (s, ", ".join(sorted(set(owners))))
